@@ -477,7 +477,7 @@ func (q dec) divBasic(u, v dec) {
 			// If n == qhl, the carry from subVV and the carry from addVV
 			// cancel out and don't affect u[j+n].
 			if n < qhl {
-				u[j+n] += c
+				add10VW(u[j+n:j+qhl], u[j+n:], c)
 			}
 			qhat--
 		}
